@@ -22,6 +22,7 @@ Labels == UNION {LabelsOf(Scripts[i]) : i \in 1..Len(Scripts)} \cup {a \o <<49>>
           \cup {<<97, HYPHEN>> \o a : a \in L1 \cup Cy}
 com == <<99, 111, 109>>
 
+Shy == <<194, 173>>
 Violations == {
    <<226, 152, 149, DOT>> \o com,                          \* U+2615 HOT BEVERAGE: disallowed
    <<73, 226, 153, 165, 78, 89, DOT, 100, 101>>,           \* I (heart) NY.de
@@ -32,6 +33,12 @@ Violations == {
    <<208, DOT>> \o com, <<208, 191, 255, DOT>> \o com, <<237, 160, 128, DOT>> \o com, <<192, 175, DOT>> \o com,   \* ill-formed UTF-8
    <<208, 191, DOT, DOT>> \o com, <<DOT, 208, 191>>,      \* empty labels
    <<208, 191, SP, DOT>> \o com, <<208, 191, USCORE, 208, 191, DOT>> \o com }
+   \* names made only of code points the IDNA mapping deletes (soft hyphen, zero-width space, word joiner, variation selector): they
+   \* convert to the empty string or to empty labels
+   \cup { Shy, Shy \o Shy, <<226, 128, 139>>, <<226, 129, 160>>, <<239, 184, 128>>, Shy \o <<DOT>> \o com, Shy \o <<DOT>> \o Shy }
+   \* a valid short name followed by k deleted code points and an invalid tail: the conversion is long, the result short and invalid
+   \cup UNION { { <<97, DOT, 99, 111, 109>> \o Concat([i \in 1..kk |-> Shy]) \o tail : tail \in { <<USCORE, 120>>, <<HYPHEN>>, <<DOT, DOT, 98>>, <<33>> } }
+                 : kk \in {100, 130, 509, 1030, 2050} }
 
 \* long U-label spellings: 240..300 UTF-8 octets whose A-label form stays well below the 253 limit
 Pn(n) == [i \in 1..(2 * n) |-> IF i % 2 = 1 THEN 208 ELSE 191]
